@@ -330,7 +330,9 @@ func (fr *Frame) execGo(in *ssa.Go) {
 	}
 	if c := fr.R.Contract; c != nil && fr.isUnitCode() {
 		for _, tr := range c.Tracks {
-			if nameMatches(names, tr.Callee) || nameMatches(names, strings.TrimPrefix(tr.Callee, "go:")) && strings.HasPrefix(tr.Callee, "go:") {
+			// a go statement is logged only under an explicit `track go:f`: a plain `track f` counts calls made (and finished)
+			// by the unit itself - starting a goroutine is not one (seed C03-10)
+			if strings.HasPrefix(tr.Callee, "go:") && nameMatches(names, strings.TrimPrefix(tr.Callee, "go:")) {
 				fr.logCall(tr.Alias, cc, Val{Tuple: []Val{}})
 			}
 		}
